@@ -4,6 +4,7 @@ import MidnightZK.Model.C10.Limbs
 import MidnightZK.Model.C10.Field
 import MidnightZK.Model.C10.Mont
 import MidnightZK.Model.C10.Tower
+import MidnightZK.Model.C10.Batch
 import MidnightZK.Gen.C10Constants
 /-!
 Line-protocol handler of property C10.
@@ -12,7 +13,10 @@ Line-protocol handler of property C10.
 * `lf <Field> <op> <limbs…>` — limb-level operation of a pure-Rust Montgomery field
   (`a,b,c,d` little-endian limbs), answered by the limb model;
 * `const <Field> <NAME>`     — canonical value of a published constant, from the generated file;
-* `tw <Tower> <op> <coeffs…>` — extension-field operation on coefficient vectors.
+* `tw <Tower> <op> <coeffs…>` — extension-field operation on coefficient vectors;
+* `pl <Field> sum|product|batch_invert <desc>` — batched operation on a list given by a compact
+  descriptor (`rep:v:n`, `alt:a:b:n`, `lcg:x0:a:c:n`); `pl <Field> chain <x0> <y> <prog> <n>` —
+  `n` in-place operations applied cyclically from the program string (see `Model/C10/Batch.lean`).
 -/
 namespace MidnightZK.C10.Driver
 open MidnightZK MidnightZK.C10
@@ -226,8 +230,40 @@ def constOf (name c : String) : Option String :=
     -- the defining equations (p, the published generator) — see `derivedConst`
     derivedConst name c
 
+/-- Batched operations on described lists and in-place chains. -/
+def answerPl (f : FieldInfo) (op : String) (args : List String) : String :=
+  let p := f.p
+  match op, args with
+  | "sum", [d] =>
+    match ListDesc.parse? d with
+    | some d => hx (sumFold p (d.expand p))
+    | none => "bad-op"
+  | "product", [d] =>
+    match ListDesc.parse? d with
+    | some d => hx (productFold p (d.expand p))
+    | none => "bad-op"
+  | "batch_invert", [d] =>
+    match ListDesc.parse? d with
+    | some d =>
+      let (out, allInv) := batchInvertTrick p (d.expand p)
+      hx allInv ++ " " ++ hx (digest p out)
+    | none => "bad-op"
+  | "chain", [x0, y, prog, n] =>
+    match parseNat? x0, parseNat? y, n.toNat? with
+    | some x0, some y, some n =>
+      if prog.isEmpty then "bad-op" else
+      match runChainProg p (y % p) prog.toList n 0 (x0 % p) with
+      | some r => hx r
+      | none => "bad-op"
+    | _, _, _ => "bad-op"
+  | _, _ => "bad-op"
+
 def answer (line : String) : String :=
   match words line with
+  | "pl" :: fname :: op :: args =>
+    match fieldOf fname with
+    | some f => answerPl f op args
+    | none => "bad-op"
   | "pf" :: fname :: op :: args =>
     match fieldOf fname, args.mapM parseNat? with
     | some f, some ns => answerPf f op ns
